@@ -52,6 +52,11 @@ pub fn write_archive_c(dir: &Path, spec: &Value, concrete: &Value) -> Vec<String
             continue;
         }
         let bdir = dir.join(format!("b{:04}", b));
+        if band["bare"].as_bool().unwrap_or(false) {
+            // a backup killed while creating its band: the directory (and its index directory), no head
+            std::fs::create_dir_all(bdir.join("i")).unwrap();
+            continue;
+        }
         std::fs::create_dir_all(bdir.join("i").join("00000")).unwrap();
         std::fs::write(bdir.join("BANDHEAD"), "{\"start_time\":0,\"band_format_version\":\"0.6.3\",\"format_flags\":[]}\n").unwrap();
         let hunks = band["hunks"].as_array().unwrap();
@@ -78,6 +83,10 @@ pub fn write_archive_c(dir: &Path, spec: &Value, concrete: &Value) -> Vec<String
             }
             let data = serde_json::to_vec(&entries).unwrap();
             std::fs::write(bdir.join("i").join("00000").join(format!("{:09}", hn)), snap::raw::Encoder::new().compress_vec(&data).unwrap()).unwrap();
+        }
+        if band["empty_last"].as_bool().unwrap_or(false) {
+            // a backup killed inside the write of its next hunk
+            std::fs::write(bdir.join("i").join("00000").join(format!("{:09}", hunks.len())), b"").unwrap();
         }
         if band["closed"].as_bool().unwrap_or(false) {
             std::fs::write(bdir.join("BANDTAIL"), format!("{{\"end_time\":0,\"index_hunk_count\":{}}}\n", hunks.len())).unwrap();
